@@ -156,7 +156,7 @@ def validate(ctx, tier, seed):
     mism = []; cnt = 0
     for i in range(15 if tier == 'quick' else 60):
         n = rng.choice([2, 3])
-        script = [s for s in random_script(rng, n, rng.randint(1, 5)) if s['op'] != 'reimport']
+        script = [s for s in random_script(rng, n, rng.randint(1, 5)) if 'reimport' not in s['op']]
         # re-index operands after dropping reimport steps
         for k, s in enumerate(script):
             for key_ in ('a', 'b'):
@@ -190,13 +190,15 @@ def spec(ctx, tier, seed):
         jobs.append(Job('sym-n2-xor-var', mod, 'mirror_job', {'n': 2, 'script': [S, {'op': 'variable', 'var': 1}, {'op': 'xor', 'a': 0, 'b': 1}], 'polls': 2}, stop_after_violations=40))
     else:
         jobs.append(Job('sym-n2-and', mod, 'mirror_job', {'n': 2, 'script': [S, S, {'op': 'and', 'a': 0, 'b': 1}], 'polls': 3}, stop_after_violations=40))
-    for i in range(2 if tier == 'quick' else 8):
+    for i in range(4 if tier == "quick" else 8):
         n = 3
-        sc = [s for s in random_script(rng, n, rng.randint(2, 4)) if s['op'] != 'reimport']
+        sc = [s for s in random_script(rng, n, rng.randint(2, 4)) if 'reimport' not in s['op']][:5]
         for k, s in enumerate(sc):
             for key_ in ('a', 'b'):
                 if key_ in s: s[key_] = min(s[key_], k - 1) if k > 0 else 0
-        jobs.append(Job('seeded-n3-%d' % i, mod, 'mirror_job', {'n': n, 'script': sc, 'polls': 3 if tier == 'quick' else 4}, stop_after_violations=40))
+        # the number of schedules grows with (messages+2)^polls: long producer scripts get one poll less in the quick tier
+        npolls = (3 if len(sc) <= 4 else 2) if tier == 'quick' else 4
+        jobs.append(Job('seeded-n3-%d' % i, mod, 'mirror_job', {'n': n, 'script': sc, 'polls': npolls}, stop_after_violations=40))
     jobs.append(Job('canary', mod, 'mirror_job', {'n': 2, 'script': [S, {'op': 'not', 'a': 0}], 'polls': 1, 'canary': True}, stop_after_violations=1, canary=True))
     return {'jobs': jobs, 'level': 'model_checking', 'allowed_status': ('ok', 'panic'),
             'assumptions': ASSUMPTIONS + ['crossbeam unbounded channel is FIFO, lossless and non-duplicating; real threads are replaced by the prefix-visibility argument (module docstring)',
